@@ -83,8 +83,63 @@ def loop_qualify(extra_assigns):
     return {1: txt}
 
 
-def _replay(rec, unit, result, fresh, tu, wd):
-    """placeholder: filled in below"""
+def _replay(rec, unit, result, fresh, tu, wd, w=None):
+    """native: the real function on parameter sets with many slots (l = 300 and l = 65540: past every narrower integer type), no attributes,
+    nothing omitted -- every slot is free, so the key must list 0, 1, ..., l-1; for the qualification functions the parent is that key"""
+    import replay as R_
+    fn = unit.target.split("::")[-1]
+    src = R_.unity_source() + r"""
+#include <stdio.h>
+#include <stdlib.h>
+#include <string.h>
+namespace W = embedded_pairing::wkdibe;
+using namespace embedded_pairing::bls12_381;
+static unsigned long long st = 88172645463325252ULL;
+static void rng(void* b, size_t n) { unsigned char* p = (unsigned char*)b; for (size_t i = 0; i < n; i++) { st ^= st << 13; st ^= st >> 7; st ^= st << 17; p[i] = (unsigned char)(st >> 32); } }
+static int run(int L) {
+  W::Params params; W::MasterKey msk; W::SecretKey sk, q;
+  params.h = (W::G1*)malloc(sizeof(W::G1) * L); sk.b = (W::FreeSlot*)malloc(sizeof(W::FreeSlot) * L); q.b = (W::FreeSlot*)malloc(sizeof(W::FreeSlot) * L);
+  params.l = L; params.signatures = false;
+  params.g.copy(G2::zero); params.g.add(params.g, G2Affine::generator); params.g1.copy(params.g);
+  params.g2.copy(G1::zero); params.g2.add(params.g2, G1Affine::generator); params.g3.copy(params.g2); params.hsig.copy(G1::zero);
+  msk.g2alpha.copy(params.g2);
+  for (int i = 0; i < L; i++) params.h[i].copy(params.g2);
+  W::Attribute none[1]; W::AttributeList al; al.attrs = none; al.length = 0; al.omitAllFromKeysUnlessPresent = false;
+  W::nondelegable_keygen(sk, params, msk, al);
+  W::SecretKey* out = &sk;
+#if JPV_FN == 0
+  W::keygen(sk, params, msk, al, rng);
+#elif JPV_FN == 2
+  for (int i = 0; i < L; i++) sk.b[i].idx = i; sk.l = L;
+  W::qualifykey(q, params, sk, al, rng); out = &q;
+#elif JPV_FN == 3
+  for (int i = 0; i < L; i++) sk.b[i].idx = i; sk.l = L;
+  W::nondelegable_qualifykey(q, params, sk, al); out = &q;
+#endif
+  long bad = -1; if (out->l == L) { for (int i = 0; i < L; i++) if (out->b[i].idx != (unsigned)i) { bad = i; break; } }
+  printf("l%d %d\n", L, out->l); printf("bad%d %ld\n", L, bad + 1);
+  int ok = out->l == L && bad < 0;
+  free(params.h); free(sk.b); free(q.b);
+  return ok;
+}
+int main() { run(300); run(65540); return 0; }
+"""
+    code = {"keygen": 0, "nondelegable_keygen": 1, "qualifykey": 2, "nondelegable_qualifykey": 3}[fn]
+    native, err = R_.run_native("#define JPV_FN %d\n" % code + src, wd, "slots_native_%s" % fn)
+    rec["native_driver_error"] = err
+    if native is None:
+        return False
+    for L in (300, 65540):
+        got, bad = native.get("l%d" % L), native.get("bad%d" % L)
+        if got is None:
+            continue
+        if got[0] != L or bad[0] != 0:
+            rec["native_finding"] = ("real %s on a parameter set with l = %d slots, empty attribute list, nothing omitted%s: the key reports %d free slots%s; all %d slots are free" %
+                                     (fn, L, " (parent key = all slots free)" if code >= 2 else "", got[0], "" if bad[0] == 0 else " and entry %d does not hold slot %d" % (bad[0] - 1, bad[0] - 1), L))
+            rec["failing_input"] = "l = %d, attrs = {}, omitAllFromKeysUnlessPresent = false" % L
+            rec["confirmed_on_real_code"] = True
+            return True
+    rec["confirmed_on_real_code"] = False
     return False
 
 
@@ -98,7 +153,7 @@ def units():
                    canary=("sk->l <= params->l", "sk->l < params->l"),
                    note="loop contract (invariants + decreases) on the slot loop, l symbolic up to INT_MAX; group operations replaced by their frame contracts")
         u.harness_pre = HAVOC
-        u.replay_hook_bv = _replay
+        u.replay_hook = _replay
         us.append(u)
     for q, ea in (("wkdibe::qualifykey", "qualified->a0, "), ("wkdibe::nondelegable_qualifykey", "qualified->a0, ")):
         cs = {q: c_qualify()}
@@ -108,6 +163,6 @@ def units():
                    canary=("qualified->l <= sk->l", "qualified->l < sk->l"),
                    note="loop contract (invariants + decreases) on the slot loop, l and the parent's slot count symbolic up to INT_MAX; the destination array needs room for the parent's sk.l entries only; group operations replaced by their frame contracts")
         u.harness_pre = HAVOC
-        u.replay_hook_bv = _replay
+        u.replay_hook = _replay
         us.append(u)
     return us
